@@ -596,6 +596,7 @@ def clauseBody : Clause → String
   | .toolAnnChanged => "content_roundtrip: ToolAnnotations did not come back as themselves from marshal → unmarshal"
   | .cloneAliased => "content_roundtrip: a change to a capabilities clone (or to the original) shows in the other's encoding: clone shares a pointer or map"
   | .cloneDiffers => "content_roundtrip: the encoding of a capabilities clone differs from the original's"
+  | .extNotStored => "content_roundtrip: AddExtension with nil settings did not store an empty object under the name"
   | .refRefused => "content_roundtrip: CompleteReference.MarshalJSON refused a consistent reference"
   | .refChanged => "content_roundtrip: a CompleteReference did not come back as itself from marshal → unmarshal"
   | .refInconsistentWritten =>
@@ -1155,6 +1156,20 @@ def stepWire (d : DState) (toks : List String) (impl : String) : DState × Verdi
         | _ => { sentResp := none, sentState := none, back := none }
       out19 d model (retryMonitor rs state obs)
     | _, _ => bad d
+  | "caps.clone" :: _kind :: cells =>
+    -- the cells set in the value (`<path>:m` a map or a pointee with members, `<path>:z` an empty pointee);
+    -- observed: `cells <n> same <bool> aliased <k> ext <ok|aliased|not-stored>`
+    let n := (cells.filter (fun t => t.endsWith ":m")).length
+    let v : CSlots := (List.range n).map some
+    let h : Heap := (List.range n).map (fun i => JVal.int (Int.ofNat i))
+    let m := modelClone v h (.bool true)
+    let model := s!"cells {n} same {m.same} aliased {m.aliased} ext ok"
+    let obs : CloneObs := match itoks with
+      | "cells" :: _ :: "same" :: sm :: "aliased" :: k :: "ext" :: e :: _ =>
+        { same := sm == "true", aliased := k.toNat?.getD 1,
+          ext := if e == "ok" then some true else if e == "not-stored" then some false else none }
+      | _ => { same := false, aliased := 1, ext := none }
+    out19 d model (cloneMonitor obs)
   | ["ann.rt", compat, dh, ih, oh, rh, title] =>
     -- `json.Marshal(ToolAnnotations{…})` under the default encoding (0) or MCPGODEBUG=hintomitempty=1 (1), then
     -- `json.Unmarshal`: `<J> | <d> <i> <o> <r> s<title>` (hints: t / f / -)
